@@ -215,6 +215,22 @@ def run(ctx):
         for v in R.get("violations") or []:
             ctx.violation("[cfgseq] " + v["what"], ctx.save_replay("cfgseq", v), key=v["key"])
 
+    # 3c. the metadata file cannot be replaced for a while: every request is still answered, everybody still served
+    rep = os.path.join(ctx.scratch, "rep-metafault.json")
+    rc, out, err = ctx.run_harness(["metafault", "--report", rep, "--scratch", ctx.scratch], name="api10", timeout=300)
+    if os.path.exists(rep):
+        R = json.load(open(rep))
+        ctx.cov["evaluations"] += R["requests"]
+        for v in R.get("violations") or []:
+            ctx.violation("[metafault] " + v["what"], ctx.save_replay("metafault", v), key=v["key"])
+        if R.get("inconclusive"):
+            ctx.notes["metafault_inconclusive"] = R["inconclusive"]
+    elif ("panic:" in err or "fatal error:" in err) and "nsqio/nsq/nsqd" in err:
+        ctx.violation("nsqd crashed while its metadata file could not be replaced:\n%s" % err[-1500:],
+                      ctx.save_replay("crash-metafault", {"stderr": err[-20000:]}), key="daemon-crash metafault")
+    else:
+        ctx.notes["metafault_inconclusive"] = (out + err)[-500:]
+
     # 4. binding B: random request traces of the real nsqd, validated by TLC.
     #    A trace stops being checkable at the first rejected step; classes that binding A already reported in this
     #    run are therefore not generated again here.
